@@ -668,11 +668,20 @@ def to_matched_score(
     snote_ids = []
     for i in sort_order:
         sn, n = note_pairs[int(i)]
-        sn_on, sn_off = [sn["onset_beat"], sn["onset_beat"] + sn["duration_beat"]]
+        # sn and n are one-element arrays: take the scalar values
+        sn_on = sn["onset_beat"].item()
+        sn_off = sn_on + sn["duration_beat"].item()
         sn_dur = sn_off - sn_on
         # hack for notes with negative durations
-        n_dur = max(n["duration_sec"], 60 / 200 * 0.25)
-        pair_info = (sn_on, sn_dur, sn["pitch"], n["onset_sec"], n_dur, n["velocity"])
+        n_dur = max(n["duration_sec"].item(), 60 / 200 * 0.25)
+        pair_info = (
+            sn_on,
+            sn_dur,
+            sn["pitch"].item(),
+            n["onset_sec"].item(),
+            n_dur,
+            n["velocity"].item(),
+        )
         if include_score_markings:
             pair_info += (sn["voice"].item(),)
             pair_info += tuple(
